@@ -9,6 +9,16 @@ extern "C" {
 // series kernel atan<16> on its call domain [0, 7/16]
 constexpr bool pre_atan_k(long z) { return z >= 0 && z <= 32768; }      // call sites need [0, 28672]
 constexpr bool post_atan_k(long z, long r) { return r >= 0 && r <= z && (z > 26887 || r <= 25515) && (z != 0 || r == 0); }
+// thorough tier: the series kernel against the exact polynomial z - z^3/3 + z^5/5 - z^7/7 + z^9/9 - z^11/11 of the property's source
+// comment.  vf_atan_poly_scaled(z) = 3465 * 2^60 * 65536 * P(z / 65536) evaluated in 128-bit integers; every `>> 32` truncates by less
+// than one unit of 2^-60 ulp, so the value is within 3465 * 5 units (2^-57 ulp) of the exact polynomial.  post_atan_poly: the kernel is
+// within 1.25 ulp of it (measured maximum 1.02).  With the alternating-series remainder z^13/13 < 2^-19.2 on [0, 7/16] (textbook
+// lemma) this bounds the kernel's distance from the real arctangent by 1.25 ulp + 0.11 ulp without any libm oracle.
+constexpr wide vf_atan_poly_scaled(long z)
+  { wide const Z = z, z2 = Z * Z, a1 = Z << 60, a3 = (a1 * z2) >> 32, a5 = (a3 * z2) >> 32, a7 = (a5 * z2) >> 32, a9 = (a7 * z2) >> 32, a11 = (a9 * z2) >> 32;
+    return 3465 * a1 - 1155 * a3 + 693 * a5 - 495 * a7 + 385 * a9 - 315 * a11; }
+constexpr bool post_atan_poly(long z, long r)
+  { wide d = (wide(3465) << 60) * wide(r) - vf_atan_poly_scaled(z); if( d < 0 ) d = -d; return 4 * d <= 5 * (wide(3465) << 60); }
 // atan_sum<c>: atan(c) + atan((x - c) / (1 + x*c)) for x >= c; the reduced argument stays inside the kernel domain
 constexpr bool pre_atan_sum1(long x) { return x >= 28672 && x < 45056; }
 constexpr bool pre_atan_sum2(long x) { return x >= 45056 && x < 77824; }
